@@ -29,6 +29,21 @@ type Run struct {
 	Votes    []abci.VoteInfo
 	Proposer int
 	InBlock  bool
+	// Fracs, if set, gives every block started with BeginBlock(dt) a sub-second part: the block time is the previous
+	// block's whole second + dt seconds + Fracs(height).  Families whose code reads block times in whole seconds only
+	// (Unix()) opt in, so that a change that starts comparing full time values shows.
+	Fracs func(height int64) time.Duration
+}
+
+// FracsFor returns a deterministic sub-second schedule for a trace (seed: any number derived from the script).
+func FracsFor(seed uint64) func(int64) time.Duration {
+	table := []time.Duration{0, 100 * time.Millisecond, 500 * time.Millisecond, 900 * time.Millisecond, time.Second - time.Nanosecond,
+		200 * time.Millisecond, 0, 750 * time.Millisecond}
+	return func(h int64) time.Duration {
+		x := seed*0x9E3779B97F4A7C15 + uint64(h)*0xBF58476D1CE4E5B9
+		x ^= x >> 29
+		return table[(x>>7)%uint64(len(table))]
+	}
 }
 
 // Branch starts a fresh trace from the committed base state.
@@ -74,7 +89,13 @@ func (o Outcome) Attrs(typ, key string) []string {
 }
 
 // BeginBlock advances height and time (dt seconds) and runs the real app.BeginBlocker.
-func (r *Run) BeginBlock(dt int64) Outcome { return r.BeginBlockAfter(time.Duration(dt) * time.Second) }
+func (r *Run) BeginBlock(dt int64) Outcome {
+	if r.Fracs == nil {
+		return r.BeginBlockAfter(time.Duration(dt) * time.Second)
+	}
+	next := r.Time.Truncate(time.Second).Add(time.Duration(dt) * time.Second).Add(r.Fracs(r.Height + 1))
+	return r.BeginBlockAfter(next.Sub(r.Time))
+}
 
 // BeginBlockAfter is BeginBlock with a block time that need not be a whole number of seconds after the previous one.
 func (r *Run) BeginBlockAfter(d time.Duration) Outcome {
